@@ -163,3 +163,11 @@ Example rp_fixed_example_b12 :
   [RpRejChallenge; RpRejDecrypt; RpAccept; RpRejReplay; RpAccept; RpAccept; RpRejReplay; RpRejReplay; RpAccept;
    RpAccept].
 Proof. vm_compute. reflexivity. Qed.
+
+(* were the Echo challenge protected with the request's nonce, the same first request arriving
+   twice would make the server use one nonce for two different messages *)
+Theorem rp_challenge_request_nonce_refuted :
+  exists h, ~ NoDup (rp_reply_nonces false 0 h (fst (rp_run rp_fixed 32 true rp_init h))).
+Proof.
+  exists [rp_g 5; rp_g 5]. vm_compute. intro H. inversion H as [|? ? Hn _]. apply Hn. left. reflexivity.
+Qed.
